@@ -425,7 +425,7 @@ func (p *Prog) Paths(entry *ssa.Function, opts PSOpts) []*Path {
 		st := &state{env: map[envKey]*T{}, cells: map[cellKey]*T{}, cellSeq: map[cellKey]int{}, fields: map[string]*T{}, arrays: map[cellKey]map[int64]*T{}, gkeys: map[string]bool{}, resolve: map[int]*T{}, loopRange: map[int]string{}}
 		fr := x.newFrame(entry, nil)
 		for _, par := range entry.Params {
-			st.env[envKey{fr.id, par}] = &T{Op: "param", Name: par.Name(), V: par, Typ: concreteType(par.Type())}
+			st.env[envKey{fr.id, par}] = &T{Op: "param", Name: x.p.ParamName(par), V: par, Typ: concreteType(par.Type())}
 		}
 		fr.free = map[*ssa.FreeVar]*T{}
 		for _, fv := range entry.FreeVars {
@@ -1936,6 +1936,16 @@ func dumpPaths(p *Prog, name string) {
 	paths := p.Paths(fn, PSOpts{NoInline: dumpNoInline, NoInlinePkgs: strings.Fields(os.Getenv("BKLCHECK_NOINLINEPKG"))})
 	for i, pa := range paths {
 		fmt.Printf("%3d %s\n", i, pa)
+		if os.Getenv("BKLCHECK_CARRIED") != "" && len(pa.Carried) > 0 {
+			var ids []int
+			for id := range pa.Carried {
+				ids = append(ids, id)
+			}
+			sort.Ints(ids)
+			for _, id := range ids {
+				fmt.Printf("      carried #%d := %s\n", id, pa.Carried[id])
+			}
+		}
 	}
 	fmt.Printf("%d paths\n", len(paths))
 	ci := p.carriedInfo[p.lastPathKey]
